@@ -127,6 +127,14 @@ CHECKS["C20"] = ("E2-sim",
   "(resp. the highest offset+length the sender had put out) at some point of a small window around its emission, never exceed the file size and never decrease.",
   "Window: events up to 2 ms earlier are surely counted, what may be in the 2-PDU transport pipeline (2 tau + 2 ms) may be. Sampled.",
   "DESIGN.md §5 C20")
+CHECKS["C17"] = ("E3-puppet",
+  "grid enumeration of timeout x limit x handler x answers-before-expiry over 7 fault families with puppet peers (virtual clock); timestamp arithmetic on the trace",
+  "Puppet peers make each limit fault happen in isolation: sender ack limit, sender inactivity (with keep-alives shortly before an expiry), receiver ack limit, receiver NAK limit (with partial "
+  "retransmissions shortly before the next round), receiver inactivity (with late segments 1 ms before an expiry), checksum failure, file-size error; timeouts 1..3 s, limits 1..4, handlers absent/cancel/"
+  "suspend/ignore/abandon, deferred/immediate NAK (exhaustive grid, 1200 cases). The first fault must have the expected condition, come L*T after the event that restarted the count (never earlier, not later), "
+  "with exactly L transmissions of EOF/Finished (resp. L NAK rounds) before it, and the configured action must follow.",
+  "Tolerance 3 tau + 6 ms. With Ignore only the absence of cancel/abandon/suspend/termination is required.",
+  "DESIGN.md §5 C17")
 NOT_YET = {}
 
 def main():
